@@ -19,6 +19,8 @@ type VerifSeg struct {
 	Count   uint64   `json:"count"`
 	Deleted []uint32 `json:"deleted"`
 	File    string   `json:"file,omitempty"` // base name when the segment is file-backed
+	Offset  uint64   `json:"offset"`         // global doc number of the segment's first document (snapshot.offsets)
+	HasOff  bool     `json:"has_off,omitempty"`
 }
 
 type VerifTask struct {
@@ -80,8 +82,13 @@ func verifSegOf(ss *SegmentSnapshot) VerifSeg {
 
 func verifRoot(snap *IndexSnapshot) []VerifSeg {
 	rv := make([]VerifSeg, 0, len(snap.segment))
-	for _, ss := range snap.segment {
-		rv = append(rv, verifSegOf(ss))
+	for i, ss := range snap.segment {
+		v := verifSegOf(ss)
+		if len(snap.offsets) == len(snap.segment) {
+			v.Offset = snap.offsets[i]
+			v.HasOff = true
+		}
+		rv = append(rv, v)
 	}
 	return rv
 }
